@@ -43,6 +43,12 @@ fn remove_steps(t: &Trace, session: usize, start: usize, len: usize) -> Trace {
 }
 
 pub fn shrink(trace: &Trace, key: &str, ctx: &Arc<ExecCtx>, max_execs: usize, max_secs: u64) -> (Trace, usize) {
+    let mut pred = |t: &Trace| reproduces(t, key, ctx);
+    shrink_with(trace, &mut pred, max_execs, max_secs)
+}
+
+/// The same minimisation with any "still fails the same way" predicate (process deaths are decided by a child process)
+pub fn shrink_with(trace: &Trace, reproduces: &mut dyn FnMut(&Trace) -> bool, max_execs: usize, max_secs: u64) -> (Trace, usize) {
     let started = Instant::now();
     let mut best = trace.clone();
     let mut execs = 0usize;
@@ -66,7 +72,7 @@ pub fn shrink(trace: &Trace, key: &str, ctx: &Arc<ExecCtx>, max_execs: usize, ma
             }
         }
         execs += 1;
-        if reproduces(&c, key, ctx) {
+        if reproduces(&c) {
             best = c;
         } else {
             s += 1;
@@ -78,7 +84,7 @@ pub fn shrink(trace: &Trace, key: &str, ctx: &Arc<ExecCtx>, max_execs: usize, ma
         let mut c = best.clone();
         c.injections.remove(k);
         execs += 1;
-        if reproduces(&c, key, ctx) {
+        if reproduces(&c) {
             best = c;
         } else {
             k += 1;
@@ -94,7 +100,7 @@ pub fn shrink(trace: &Trace, key: &str, ctx: &Arc<ExecCtx>, max_execs: usize, ma
                 let len = chunk.min(best.sessions[session].len() - start);
                 let c = remove_steps(&best, session, start, len);
                 execs += 1;
-                if reproduces(&c, key, ctx) {
+                if reproduces(&c) {
                     best = c;
                     progress = true;
                 } else {
@@ -135,7 +141,7 @@ pub fn shrink(trace: &Trace, key: &str, ctx: &Arc<ExecCtx>, max_execs: usize, ma
                     let mut c = best.clone();
                     c.sessions[session][k] = Step::Call(Op::SetMathml(ExprRef::Lit(cand.clone())));
                     execs += 1;
-                    if reproduces(&c, key, ctx) {
+                    if reproduces(&c) {
                         best = c;
                         cur = cand;
                         literal = true;
@@ -153,7 +159,7 @@ pub fn shrink(trace: &Trace, key: &str, ctx: &Arc<ExecCtx>, max_execs: usize, ma
         c.world.dir_order = None;
         c.world.lib_rand_repeat = 0.0;
         execs += 1;
-        if reproduces(&c, key, ctx) {
+        if reproduces(&c) {
             best = c;
         }
     }
